@@ -70,7 +70,10 @@ func fixBlock(from uintptr, block []byte, trampoline uintptr,
 			if l := copy(copyBlock, block); l != len(block) {
 				return nil, 0, errors.New("copy block array error")
 			}
-			fixedInsData := fixIns(ins, pos, copyBlock, blockSize, (uint64)(from), trampoline)
+			// 短跳转指令被扩展为长跳转指令后, 后续指令在 trampoline 中的位置会后移,
+			// 因此需要把已经产生的位移(len(fixedBlock)-pos)计入 trampoline 的地址
+			fixedInsData := fixIns(ins, pos, copyBlock, blockSize, (uint64)(from),
+				trampoline+uintptr(len(fixedBlock)-pos))
 			fixedBlock = append(fixedBlock, fixedInsData...)
 
 			logger.Debugf("[%d]>[%d] 0x%x:\t%s\t\t%s\t\t%s", ins.Len, len(fixedInsData),
